@@ -4,7 +4,7 @@
    proved are kept visible as [Definition ..._full_statement : Prop] (reported
    under coverage["open_statements"], never counted as obligations). *)
 From Coq Require Import ZArith NArith List Bool String.
-Require Import Model.Ast Model.Desugar Spec.ExpandSpec Proofs.DesugarProofs Proofs.DesugarMetas Proofs.DesugarTotal.
+Require Import Model.Ast Model.Desugar Spec.ExpandSpec Proofs.DesugarProofs Proofs.DesugarMetas Proofs.DesugarTotal Proofs.DesugarRefine.
 Import ListNotations.
 Local Open Scope string_scope.
 
@@ -114,6 +114,55 @@ Theorem C18_desugar_template_never_panics : forall lib env body,
 Proof. exact desugar_template_total_expanded. Qed.
 Print Assumptions C18_desugar_template_never_panics.
 
+(* FAITHFULNESS.  For a body of the parser (named inputs one per argument, log
+   strings split) the answer of the two passes and the specified expansion
+   coincide as options: accepted exactly when expand_spec is defined, and then
+   with exactly that result.  The specification is instantiated with the
+   implementation's naming scheme ([name_opt lib id m] = `<id>_<line>_<start>`,
+   counters `anon_var_<line>_<start>`) and with the signature table of the program
+   ([sig_table ts]: inputs and outputs of every template in declaration order). *)
+Theorem C18_desugar_is_expand : forall (lib : file_library) ts m l,
+  Forall wf_node (stmt_exprs (Block m l)) ->
+  Forall short_node (sub_stmts (Block m l)) ->
+  to_opt (desugar_template (env_of ts) lib (Block m l)) =
+  expand_spec (sig_table ts) (name_opt lib) (name_opt lib "anon_var") (Block m l).
+Proof. exact desugar_is_expand. Qed.
+Print Assumptions C18_desugar_is_expand.
+
+(* the accepted output is the specified expansion: a tuple assignment is the
+   element-wise assignments in order skipping `_`; `T(p..)(a..)` is a declared
+   component initialised with T(p..), inputs assigned in declaration order
+   (positionally or by name, the operator belonging to the name), outputs read in
+   declaration order *)
+Theorem C18_desugar_refines_expand : forall (lib : file_library) ts m l body',
+  Forall wf_node (stmt_exprs (Block m l)) ->
+  Forall short_node (sub_stmts (Block m l)) ->
+  desugar_template (env_of ts) lib (Block m l) = DOk body' ->
+  expand_spec (sig_table ts) (name_opt lib) (name_opt lib "anon_var") (Block m l) = Some body'.
+Proof. exact desugar_refines_expand. Qed.
+Print Assumptions C18_desugar_refines_expand.
+
+(* an error report only on invalid uses of the sugar *)
+Theorem C18_desugar_errors_exact : forall (lib : file_library) ts m l,
+  Forall wf_node (stmt_exprs (Block m l)) ->
+  Forall short_node (sub_stmts (Block m l)) ->
+  (exists r, desugar_template (env_of ts) lib (Block m l) = DErr r) ->
+  expand_spec (sig_table ts) (name_opt lib) (name_opt lib "anon_var") (Block m l) = None.
+Proof. exact desugar_errors_exact. Qed.
+Print Assumptions C18_desugar_errors_exact.
+
+(* together with panic freedom: on parser output the desugarer accepts exactly the
+   valid uses (with the specified result) and reports an error exactly on the
+   invalid ones *)
+Theorem C18_desugar_accepts_iff : forall (lib : file_library) ts body,
+  wf_template lib body ->
+  (forall b', desugar_template (env_of ts) lib body = DOk b' <->
+              expand_spec (sig_table ts) (name_opt lib) (name_opt lib "anon_var") body = Some b') /\
+  ((exists r, desugar_template (env_of ts) lib body = DErr r) <->
+   expand_spec (sig_table ts) (name_opt lib) (name_opt lib "anon_var") body = None).
+Proof. exact desugar_accepts_iff. Qed.
+Print Assumptions C18_desugar_accepts_iff.
+
 (* ---- hypotheses are satisfiable / the definitions compute ------------------ *)
 
 Definition m0 (a b : N) : meta := Meta a b (Some 0%N).
@@ -183,24 +232,3 @@ Example C18_D7_function_multisub :
                                              Return (m0 9 18) (Number (m0 16 17) 0)]) = DOk (Some [r])
             /\ r_msg r = MFunMultiSub.
 Proof. eexists. vm_compute. split; reflexivity. Qed.
-
-(* ---- open statements (not proved; observed by the correspondence run) ------- *)
-
-Definition name_opt (lib : file_library) (prefix : string) (m : meta) : option string :=
-  match gen_name lib prefix m with DOk s => Some s | _ => None end.
-
-(* the accepted output is the specified expansion, with the implementation's
-   naming scheme for the introduced components and counters *)
-Definition C18_desugar_refines_expand_full_statement : Prop :=
-  forall (lib : file_library) (ts : list (string * statement)) n body body',
-    In (n, body) ts ->
-    (forall t m args s, In t (sub_stmts body) -> t = LogCall m args -> In (LogStr s) args -> String.length s <= 230) ->
-    desugar_template (env_of ts) lib body = DOk body' ->
-    expand_spec (sig_table ts) (name_opt lib) (name_opt lib "anon_var") body = Some body'.
-
-(* an error exactly on the invalid uses of the sugar *)
-Definition C18_desugar_errors_exact_full_statement : Prop :=
-  forall (lib : file_library) (ts : list (string * statement)) n body,
-    In (n, body) ts ->
-    (exists r, desugar_template (env_of ts) lib body = DErr r) ->
-    expand_spec (sig_table ts) (name_opt lib) (name_opt lib "anon_var") body = None.
